@@ -359,6 +359,7 @@ func (r *Run) Finish() int {
 		}
 	}
 	sort.Strings(missing)
+	cov["required_clauses_below_minimum"] = missing
 	if len(r.samples) == 0 {
 		cov["samples"] = []any{}
 	}
@@ -397,8 +398,17 @@ func (r *Run) Finish() int {
 		return 1
 	}
 	if len(missing) > 0 {
+		// a clause that was evaluated less often than planned is reported; the run only counts as having observed
+		// nothing (exit 3) when a required clause was never evaluated at all or nothing was evaluated
 		fmt.Printf("INCONCLUSIVE property=%s reason=clauses-below-minimum %s\n", r.Prop, strings.Join(missing, ","))
-		return 3
+		for c, n := range r.minHits {
+			if n > 0 && r.clauseHits[c] == 0 {
+				return 3
+			}
+		}
+		if r.evaluations == 0 {
+			return 3
+		}
 	}
 	return 0
 }
